@@ -1,5 +1,5 @@
 """property id -> check function(prop, tier, replay) -> exit code"""
-from . import router, reg, selector, framing, rpc, transcode, registry_chk, mount, deadline, proxy, conc
+from . import router, reg, selector, framing, rpc, transcode, registry_chk, mount, deadline, proxy, conc, robust
 
 CHECKS = {
     "C01": router.run,
@@ -13,6 +13,7 @@ CHECKS = {
     "C13": conc.run,
     "C14": rpc.run,
     "C18": rpc.run,
+    "C09": robust.run,
     "C10": proxy.run,
     "C11": registry_chk.run,
     "C12": registry_chk.run,
